@@ -119,7 +119,9 @@ def run_shard(shard):
                 if bad:
                     res.violate(violation(f'{fn}:value', f'{name} {fn} keys {keys}: differs from the finite wedge-power sum on blades {bad}', case, show(want), show(got),
                                           head + f"x = alg.multivector(keys={keys}, name='x'); print(x.{fn}())"))
-            # outertan with Fractions
+            # outertan with Fractions (its generation divides symbolically: dense operands of d >= 5 do not finish)
+            if alg.d >= 5 and len(keys) > 6:
+                continue
             for vals in ([Fraction(1 + i, 2) for i in range(len(keys))], [Fraction((-1) ** i * (2 + i), 3) for i in range(len(keys))]):
                 res.evals += 1
                 xn = nmv(alg, keys, vals)
